@@ -51,12 +51,38 @@ class FwdKw(CustomSchema[FwdProps]):
         return self.__class__(self.props.update(inner=inner))
 
 
+class FwdAttr(CustomSchema[Props]):
+    """A third common way: the target is kept as a plain attribute of the instance, not in
+    props - two instances forwarding to different targets then have equal (empty) props."""
+
+    inner: Any = None
+
+    def __represent__(self, visitor: Any, *, indent: int = 0, **kwargs: Any) -> str:
+        return self.inner.__accept__(visitor, indent=indent, **kwargs)
+
+    def __generate__(self, visitor: Any, **kwargs: Any) -> Any:
+        return self.inner.__accept__(visitor, **kwargs)
+
+    def __validate__(self, visitor: Any, *, value: Any = Nil, path: Any = Nil, **kwargs: Any) -> Any:
+        return self.inner.__accept__(visitor, value=value, path=path, **kwargs)
+
+    def __substitute__(self, visitor: Any, *, value: Any = Nil, **kwargs: Any) -> Any:
+        out = self.__class__(self.props)
+        out.inner = self.inner.__accept__(visitor, value=value, **kwargs)
+        return out
+
+
 _registered = register_type("mc_fwd", Fwd)
 register_type("mc_fwdkw", FwdKw)
+register_type("mc_fwdattr", FwdAttr)
 
 
 def wrap(inner, flavour=None):
     from d42 import schema
+    if flavour == "attr":
+        out = schema.mc_fwdattr
+        out.inner = inner
+        return out
     return schema.mc_fwdkw(inner) if flavour == "kw" else schema.mc_fwd(inner)
 
 
@@ -115,3 +141,30 @@ class CappedStr(StrSchema):
         if any(isinstance(x, int) and not isinstance(x, bool) and x > 2 for x in args):
             raise DeclarationError("CappedStr: lengths above 2 are not allowed")
         return super().len(*args)
+
+
+# User-defined type aliases whose Props supply the aliased type themselves (a documented
+# extension route): every visitor must read the type through the `type` property.
+from d42.declaration.types import GenericTypeAliasSchema, TypeAliasProps  # noqa: E402
+
+
+class SlugProps(TypeAliasProps):
+    @property
+    def type(self) -> Any:
+        from d42 import schema
+        return self.get("type", schema.str.alphabet("ab").len(1, 2))
+
+
+class SlugSchema(GenericTypeAliasSchema[SlugProps]):
+    pass
+
+
+class PointProps(TypeAliasProps):
+    @property
+    def type(self) -> Any:
+        from d42 import optional, schema
+        return self.get("type", schema.dict({"a": schema.int.min(0).max(7), optional("b"): schema.str("ab")}))
+
+
+class PointSchema(GenericTypeAliasSchema[PointProps]):
+    pass
